@@ -43,13 +43,15 @@ const (
 	ALGTypeRTSP uint8 = 3
 )
 
-// PortBlock represents a port block allocation per RFC 6431
+// PortBlock represents a port block allocation per RFC 6431.
+// It mirrors struct port_block in bpf/nat44.c, where next_port and
+// ports_in_use are __u32 (atomic operations), 32 bytes in total.
 type PortBlock struct {
 	PublicIP      uint32
 	PortStart     uint16
 	PortEnd       uint16
-	NextPort      uint16
-	PortsInUse    uint16
+	NextPort      uint32
+	PortsInUse    uint32
 	AllocatedAt   uint64
 	SubscriberID  uint32
 	BlockSizeLog2 uint8
@@ -66,7 +68,10 @@ type SubscriberNAT struct {
 	BytesIn        uint64
 }
 
-// NATSession mirrors the eBPF NAT session struct
+// NATSession mirrors the eBPF NAT session struct (struct nat_session in
+// bpf/nat44.c, 80 bytes). Map values are encoded without implicit padding, so
+// the padding the C compiler inserts in front of the 8-byte aligned last_seen
+// and at the end of the struct has to be spelled out here.
 type NATSession struct {
 	NatIP      uint32
 	NatPort    uint16
@@ -75,6 +80,7 @@ type NATSession struct {
 	DestIP     uint32
 	DestPort   uint16
 	_          uint16
+	_          uint32 // aligns LastSeen to 8 bytes like the C struct
 	LastSeen   uint64
 	Created    uint64
 	PacketsOut uint64
@@ -85,6 +91,7 @@ type NATSession struct {
 	Protocol   uint8
 	Flags      uint8
 	IsHairpin  uint8
+	_          [4]byte // tail padding of the C struct
 }
 
 // EIMKey is the key for Endpoint-Independent Mapping lookups
@@ -132,7 +139,8 @@ type NATConfig struct {
 	_                  uint32
 }
 
-// BPFLogEntry mirrors the eBPF ring buffer log entry
+// BPFLogEntry mirrors the eBPF ring buffer log entry (struct nat_log_entry in
+// bpf/nat44.c, 40 bytes including its tail padding)
 type BPFLogEntry struct {
 	Timestamp    uint64
 	EventType    uint32
@@ -145,6 +153,7 @@ type BPFLogEntry struct {
 	DestPort     uint16
 	Protocol     uint8
 	Flags        uint8
+	_            [4]byte // tail padding of the C struct
 }
 
 // ALGConfig represents ALG configuration for a port
@@ -480,7 +489,7 @@ func (m *Manager) AllocateNAT(privateIP net.IP) (*Allocation, error) {
 				PublicIP:      ipToKey(selectedPool.PublicIP),
 				PortStart:     portStart,
 				PortEnd:       portEnd,
-				NextPort:      portStart,
+				NextPort:      uint32(portStart),
 				PortsInUse:    0,
 				AllocatedAt:   uint64(time.Now().UnixNano()),
 				SubscriberID:  subscriberID,
